@@ -2753,24 +2753,46 @@ Import Ex Ex2.
 Definition prog_f6 : list stmt :=
   [ SAct 1 CtxFinish false (A 21) [] None [] [ SFinishAgain 1 None ] ].
 
+Definition ops_f6p : list (nat * op) := fst (compile 0 prog_f6).
+Definition s_f6 : state := final cfg0 0 dests_f6 ops_f6p.
+
+(* the relevant data of the final state, computed once by the VM *)
+Lemma f6_action :
+  alookup 1 (heap s_f6) = Some (mkAction 0 [] 3 true [] (A 21) None None).
+Proof. vm_compute. reflexivity. Qed.
+
+Lemma f6_trace :
+  map (fun m => (fget K_uuid m, fget K_level m, fget K_status m)) (trace_of s_f6 0) =
+  [ (Some (VUuid 0), Some (VLevel [1%positive]), Some (VStatus Started));
+    (Some (VUuid 0), Some (VLevel [2%positive]), Some (VStatus Succeeded));
+    (Some (VUuid 0), Some (VLevel [3%positive]), None) ].
+Proof. vm_compute. reflexivity. Qed.
+
+Lemma f6_disciplined :
+  disciplined 0 cfg0 ops_f6p (registered dests_f6) = true /\
+  disciplined2 0 cfg0 ops_f6p (registered dests_f6) = false.
+Proof. split; vm_compute; reflexivity. Qed.
+
 Theorem C02_unscoped_refuted :
-  let ops := fst (compile 0 prog_f6) in
-  let s := final cfg0 0 dests_f6 ops in
   wf_prog [] prog_f6 = true /\ NoDup (declared prog_f6) /\
-  disciplined 0 cfg0 ops (registered dests_f6) = true /\
-  disciplined2 0 cfg0 ops (registered dests_f6) = false /\
-  exists a, alookup 1 (heap s) = Some a /\ a_finished a = true /\
-    ~ exists m, In m (trace_of s 0) /\
+  disciplined 0 cfg0 ops_f6p (registered dests_f6) = true /\
+  disciplined2 0 cfg0 ops_f6p (registered dests_f6) = false /\
+  exists a, alookup 1 (heap s_f6) = Some a /\ a_finished a = true /\
+    ~ exists m, In m (trace_of s_f6 0) /\
         (fget K_uuid m, fget K_level m) =
           (Some (VUuid (a_uuid a)), Some (VLevel (a_level a ++ [Pos.of_nat (a_last a)]))) /\
         (fget K_status m = Some (VStatus Succeeded) \/ fget K_status m = Some (VStatus Failed)).
 Proof.
-  cbv zeta. split; [reflexivity|]. split; [repeat constructor; intros []|].
-  split; [vm_compute; reflexivity|]. split; [vm_compute; reflexivity|].
-  eexists. split; [vm_compute; reflexivity|]. split; [reflexivity|].
-  intros (m & I & P & E). vm_compute in I.
-  destruct I as [<-|[<-|[<-|[]]]]; vm_compute in P; try discriminate.
-  vm_compute in E. destruct E; discriminate.
+  split; [reflexivity|]. split; [repeat constructor; intros []|].
+  split; [apply f6_disciplined|]. split; [apply f6_disciplined|].
+  eexists. split; [exact f6_action|]. split; [reflexivity|].
+  intros (m & I & P & E).
+  apply (in_map (fun m => (fget K_uuid m, fget K_level m, fget K_status m))) in I.
+  rewrite f6_trace in I. cbn [a_uuid a_level a_last app Pos.of_nat Pos.succ] in P.
+  destruct I as [I|[I|[I|[]]]]; injection I as I1 I2 I3.
+  - rewrite <- I2 in P. discriminate.
+  - rewrite <- I2 in P. discriminate.
+  - rewrite <- I3 in E. destruct E; discriminate.
 Qed.
 End Refute.
 
